@@ -177,6 +177,32 @@ func main() {
 		l.Raw("    message (downlinks), every index expression used to fill a send-side vector in the keep path (in source order,\n")
 		l.Raw("    with the counter increment), the slice handed to WriteMsgs, where the counter is declared, the msgvec→iovec/name links -/\n")
 		l.Raw("def batchProgs : List (String × List (String × String)) := [\n  " + strings.Join(batches, ",\n  ") + "]\n")
+
+		// every place where a queued packet buffer is given back (= the packet's journey ends), classified
+		var drops []string
+		for _, it := range []struct{ recv, fn, label, kind string }{
+			{"*UDPNATRelay", "relayServerConnToNatConnGeneric", "nat-uplink-generic", "uplink"},
+			{"*UDPNATRelay", "relayServerConnToNatConnSendmmsg", "nat-uplink-mmsg", "uplink"},
+			{"*UDPSessionRelay", "relayServerConnToNatConnGeneric", "session-uplink-generic", "uplink"},
+			{"*UDPSessionRelay", "relayServerConnToNatConnSendmmsg", "session-uplink-mmsg", "uplink"},
+			{"*UDPNATRelay", "recvFromServerConnGeneric", "nat-recv-generic", "recv"},
+			{"*UDPNATRelay", "recvFromServerConnRecvmmsg", "nat-recv-mmsg", "recv"},
+			{"*UDPSessionRelay", "recvFromServerConnGeneric", "session-recv-generic", "recv"},
+			{"*UDPSessionRelay", "recvFromServerConnRecvmmsg", "session-recv-mmsg", "recv"},
+		} {
+			fd, err := sp.Func(it.recv, it.fn)
+			if err != nil {
+				return err
+			}
+			cls, err := dropSites(sp, fd, it.kind)
+			if err != nil {
+				return fmt.Errorf("%s.%s: %w", it.recv, it.fn, err)
+			}
+			drops = append(drops, fmt.Sprintf("(%s, %s)", gen.LeanString(it.label), gen.LeanStrList(cls)))
+		}
+		l.Raw("/-- every `putQueuedPacket` site of the uplink and receive loops, classified, in source order: the complete list of\n")
+		l.Raw("    ways the journey of a client datagram can end inside the relay -/\n")
+		l.Raw("def dropSites : List (String × List String) := [\n  " + strings.Join(drops, ",\n  ") + "]\n")
 		return nil
 	})
 }
@@ -745,4 +771,91 @@ func batchProgram(p *apkg, fd *ast.FuncDecl) ([][2]string, error) {
 	add("sendVec", sendVec)
 	add("sendHi", sendHi)
 	return out, nil
+}
+
+// ---- where a queued packet's buffer is given back ----
+
+// dropSites classifies every s.putQueuedPacket(...) call of an uplink ("pack-error" | "after-send") or receive
+// function ("rejected" before the enqueue, "queue-full" in the select's default, "not-started" in the session
+// goroutine's deferred cleanup, "unused-buffer" after the receive loop). Anything else is an error.
+func dropSites(p *apkg, fd *ast.FuncDecl, kind string) ([]string, error) {
+	var out []string
+	var err error
+	var visit func(n ast.Node, ctx []ast.Node)
+	classify := func(call *ast.CallExpr, ctx []ast.Node) string {
+		inDefault, inErrIf, inDefer, inNotClean := false, false, false, false
+		var errIf *ast.IfStmt
+		for _, c := range ctx {
+			switch v := c.(type) {
+			case *ast.CommClause:
+				if v.Comm == nil {
+					inDefault = true
+				}
+			case *ast.IfStmt:
+				if containsSrc(p, v.Cond, "err != nil") || containsSrc(p, v.Cond, "== 0") {
+					inErrIf = true
+					errIf = v
+				}
+				if p.Src(v.Cond) == "!sendChClean" {
+					inNotClean = true
+				}
+			case *ast.DeferStmt:
+				inDefer = true
+			}
+		}
+		switch {
+		case inDefer && inNotClean:
+			return "not-started"
+		case inDefer:
+			return ""
+		case kind == "uplink" && inErrIf:
+			// the error must be PackInPlace's: the statement before the if in its block
+			for _, c := range ctx {
+				if b, ok := c.(*ast.BlockStmt); ok {
+					for i, st := range b.List {
+						if st == ast.Stmt(errIf) && i > 0 && containsSrc(p, b.List[i-1], ".PackInPlace(") {
+							return "pack-error"
+						}
+					}
+				}
+			}
+			return ""
+		case kind == "uplink":
+			return "after-send"
+		case inDefault:
+			return "queue-full"
+		case inErrIf:
+			return "rejected"
+		}
+		// receive function, not under an error check: only the hand-back of unused receive buffers after the loop
+		for _, c := range ctx {
+			if _, ok := c.(*ast.ForStmt); ok {
+				return ""
+			}
+		}
+		return "unused-buffer"
+	}
+	visit = func(n ast.Node, ctx []ast.Node) {
+		if n == nil || err != nil {
+			return
+		}
+		if ce, ok := n.(*ast.CallExpr); ok && p.Src(ce.Fun) == "s.putQueuedPacket" {
+			c := classify(ce, ctx)
+			if c == "" {
+				err = fmt.Errorf("unclassified putQueuedPacket site %q", p.Src(ce))
+				return
+			}
+			out = append(out, c)
+		}
+		ctx = append(ctx, n)
+		ast.Inspect(n, func(m ast.Node) bool {
+			if m == nil || m == n {
+				return m == n
+			}
+			visit(m, ctx)
+			return false
+		})
+	}
+	visit(fd.Body, nil)
+	return out, err
 }
